@@ -79,7 +79,7 @@ class GateCall0:
     raises_only = ()
 
 
-@contract("core.algorithm.expand_subcircuits:SubcircuitExpander.visit_default", props=["C09", "C11"])
+@contract("core.algorithm.expand_subcircuits:SubcircuitExpander.visit_default", props=["C09", "C11", "C12"])
 class XDefault:
     def requires(self, obj):
         return wf_expander(self) and not isinstance(obj, LoopStatement) and not isinstance(obj, BlockStatement)
@@ -90,7 +90,7 @@ class XDefault:
     raises_only = ()
 
 
-@contract("core.algorithm.expand_subcircuits:SubcircuitExpander.visit_GateStatement", props=["C09", "C10", "C11"])
+@contract("core.algorithm.expand_subcircuits:SubcircuitExpander.visit_GateStatement", props=["C09", "C10", "C11", "C12"])
 class XGate:
     """a call keeps its name and its arguments; a macro call is re-targeted at the rebuilt macro of that name,
     so the call and the circuit's macro table agree (C10: expand_macros afterwards sees the expanded body
@@ -113,7 +113,7 @@ class XGate:
     raises_only = ()
 
 
-@contract("core.algorithm.expand_subcircuits:SubcircuitExpander.visit_LoopStatement", props=["C09", "C11"])
+@contract("core.algorithm.expand_subcircuits:SubcircuitExpander.visit_LoopStatement", props=["C09", "C11", "C12"])
 class XLoop:
     def requires(self, loop):
         return wf_expander(self) and isinstance(loop, LoopStatement) and wf_stmt(loop)
@@ -124,7 +124,7 @@ class XLoop:
     raises_only = ()
 
 
-@contract("core.algorithm.expand_subcircuits:SubcircuitExpander.visit_BlockStatement", props=["C09", "C11"])
+@contract("core.algorithm.expand_subcircuits:SubcircuitExpander.visit_BlockStatement", props=["C09", "C11", "C12"])
 class XBlock:
     def requires(self, block):
         return wf_expander(self) and isinstance(block, BlockStatement) and wf_stmt(block)
@@ -135,7 +135,7 @@ class XBlock:
     raises_only = ()
 
 
-@contract("core.algorithm.expand_subcircuits:SubcircuitExpander.process_subcircuit", props=["C09", "C11"])
+@contract("core.algorithm.expand_subcircuits:SubcircuitExpander.process_subcircuit", props=["C09", "C11", "C12"])
 class XSub:
     def requires(self, block):
         return wf_expander(self) and isinstance(block, BlockStatement) and wf_stmt(block) and block._subcircuit
@@ -149,7 +149,7 @@ class XSub:
     raises_only = ()
 
 
-@contract("core.algorithm.expand_subcircuits:SubcircuitExpander.process_non_subcircuit_block", props=["C09", "C11"])
+@contract("core.algorithm.expand_subcircuits:SubcircuitExpander.process_non_subcircuit_block", props=["C09", "C11", "C12"])
 class XNonSub:
     def requires(self, block):
         return wf_expander(self) and isinstance(block, BlockStatement) and wf_stmt(block) and not block._subcircuit
